@@ -129,6 +129,54 @@ def r10_7(ck, F):
               "an OpenPort frame can be accepted without creating a Request (no one will answer it)", hr.loc(tb))
 
 
+def _field_reads(F, field, exclude_file_suffix):
+    """(body, bb) of reads of a struct field named `field` (as operand / borrowed place), outside the given file."""
+    out = []
+    tag = ":" + field
+    for b in F.by_dp.values():
+        if b.crate != "remoc" or b.file.endswith(exclude_file_suffix):
+            continue
+        for bb, blk in enumerate(b.blocks):
+            if blk.get("cleanup"):
+                continue
+            for st in blk["s"]:
+                if st["k"] != "assign":
+                    continue
+                rv = st["rv"]
+                places = []
+                for key in ("o", "a", "b"):
+                    o = rv.get(key)
+                    if o and o[0] != "k":
+                        places.append(o[1])
+                for o in rv.get("ops", []):
+                    if o[0] != "k":
+                        places.append(o[1])
+                if rv["r"] in ("ref", "discr", "rawptr"):
+                    places.append(rv["p"])
+                if any(isinstance(x, str) and x.endswith(tag) for p in places for x in p[1:]):
+                    out.append((b, bb))
+            t = blk["t"]
+            for a in t.get("a", []):
+                if a[0] != "k" and any(isinstance(x, str) and x.endswith(tag) for x in a[1][1:]):
+                    out.append((b, bb))
+    return out
+
+
+def r10_8(ck, F):
+    ck.rule("R10.8", "the configured exhaustion policy has an effect: every connect-related option of Cfg "
+            "(ports_exhausted, connect_queue, max_ports) is read somewhere outside chmux/cfg.rs",
+            "Cfg::ports_exhausted = Fail (or Wait with a time limit) configured, ports exhausted, Client::connect(): the "
+            "request waits without limit instead of being refused with LocalPortsExhausted", floor=3)
+    fields = F.adt_fields("chmux::cfg::Cfg")
+    for fld in ("ports_exhausted", "connect_queue", "max_ports"):
+        if fld not in fields:
+            raise mir.AnchorMissing(f"Cfg.{fld}")
+        reads = _field_reads(F, fld, "chmux/cfg.rs")
+        ck.expect(bool(reads), f"Cfg_{fld}-used", f"read at {len(reads)} site(s), e.g. {reads[0][0].loc(reads[0][1]) if reads else ''}",
+                  f"Cfg::{fld} is documented as configuring connect behaviour but is never read by the library: the "
+                  f"option has no effect", None, {"field": fld})
+
+
 def r10_5(ck, F):
     ck.rule("R10.5", "`sent` notification: in handle_event(ConnectReq) the binding that owns sent_tx is dropped only after "
             "Permit::send(OpenPort) on the accepting path",
@@ -200,7 +248,7 @@ def r10_6(ck, F):
 
 def run(ck, F):
     import c08
-    for r in (r10_1, r10_2, r10_3, r10_5, r10_6, r10_7):
+    for r in (r10_1, r10_2, r10_3, r10_5, r10_6, r10_7, r10_8):
         ck.run_rule(r)
     # shared clauses
     ck.run_rule(c08.r08_3)       # R10.4 = listener queue bound
